@@ -138,11 +138,14 @@ class Gen:
             for key, rep in XOF_READING:
                 if norm.count(key) != 1: self.fail(f"fn {name}: reading `{key}` matches {norm.count(key)} times")
                 norm = norm.replace(key, rep)
+        for cname, crel in ent.get("consts", {}).items():      # `[v; CONST]`: the parser wants a literal repeat length
+            norm = re.sub(r"\[ (\S+) ; %s \]" % cname, lambda m: "[ %s ; %d ]" % (m.group(1), self.const(crel, cname)), norm)
         norm, np_ = PTR_READ.subn(lambda m: "__read_le ( self . buffer , self . buffer_current , %d )" % (int(m.group(1)) // 8), norm)
         toks = T.tokenize(norm, line)
         p = T.Parser(toks, name)
         fn = p.fn_item()
-        fn.update({"file": rel, "line0": line, "line1": toks[p.i - 1][2], "hash": h, "generic": generic is not None})
+        aliases = dict(re.findall(r"\btype\s+(\w+)\s*=\s*(\w+)\s*;", src[lo:hi])) if ent.get("impl") else {}
+        fn.update({"file": rel, "line0": line, "line1": toks[p.i - 1][2], "hash": h, "generic": generic is not None, "aliases": aliases})
         return fn
 
     def generate(self):
@@ -177,7 +180,7 @@ class Lower:
         if t == "i32": return "Int"
         if t in ("bytes", "words", "moduli"): return "List Nat"
         if t == "rng": return "σ"
-        if t == "self": return self.g.struct["name"]
+        if t in ("self", "selfval"): return self.g.struct["name"]
         if t == "dist_i32": return "Int × Int"
         if t == "dist_u64": return "Nat × Nat"
         self.fail(f"type {t}")
@@ -248,6 +251,22 @@ class Lower:
             if at == "bool": return f"(¬ {a})", "bool"
             if at == "usize": return f"(notW {a})", "usize"
             self.fail(f"`!` on {at}")
+        if k == "structlit":
+            st = self.g.struct
+            if st is None or e[1] not in ("Self", st["name"]): self.fail(f"struct literal `{e[1]}`")
+            given = dict(e[2])
+            if len(given) != len(e[2]) or set(given) != {f for f, _, _ in st["fields"]}: self.fail("struct literal: field set differs from the definition")
+            parts = []
+            for f, lt, rt in st["fields"]:
+                fe = self.unp(given[f])
+                if lt == "List Nat" and fe[0] == "array":
+                    if not fe[1] or not all(self.is_lit(x) and self.lit_val(x) == self.lit_val(fe[1][0]) for x in fe[1]): self.fail("array field that is not `[literal; N]`")
+                    if not 0 <= self.lit_val(fe[1][0]) < 256: self.fail("byte literal out of range")
+                    a, at = f"(List.replicate {len(fe[1])} {self.lit_val(fe[1][0])})", "bytes"
+                else: a, at = self.ex(fe, env, ops, rt if rt in WORDS else None)
+                if at != ("bytes" if lt == "List Nat" else rt): self.fail(f"struct literal: field `{f}` gets a value of type {at}")
+                parts.append(f"{f} := {a}")
+            return "{ " + ", ".join(parts) + f" : {st['name']} }}", "selfval"
         if k == "bin": return self.binop(e, env, ops, want)
         if k == "mcall": return self.mcall(e, env, ops)
         if k == "call": return self.call(e, env, ops)
@@ -768,6 +787,7 @@ class Lower:
             elif pt == ("ref", True, ("arr", ("name", "u8"), None)): ty = "bytes"; isout = True
             elif pt == ("ref", True, ("arr", ("name", "u64"), None)): ty = "words"; isout = True
             elif pt[0] == "name" and pt[1] in WORDS: ty = pt[1]; isout = False
+            elif pt[0] == "name" and fn.get("aliases", {}).get(pt[1]) == "PRNGSeed": ty = "bytes"; isout = False      # `seed: Self::Seed`, `type Seed = PRNGSeed;`
             else: self.fail(f"parameter `{pn}: {pt}`")
             env[pn] = {"lean": ln, "ty": ty, "mut": isout or mut}
             binders.append(f"({ln} : {self.lean_ty(ty)})"); kinds.append(ty)
@@ -775,6 +795,7 @@ class Lower:
         rt = fn["ret"]
         if rt == ("tuple", []): self.ret_ty = None
         elif rt[0] == "name" and rt[1] in WORDS + ("i32",): self.ret_ty = rt[1]
+        elif rt == ("name", "Self") and self.g.struct is not None and self.ent.get("impl", "").split()[-1] == self.g.struct["name"]: self.ret_ty = "selfval"
         else: self.fail(f"return type {rt}")
         ops = []
         stmts, tail = fn["body"]
